@@ -130,6 +130,7 @@ theorem write_eq (c : Cache Node) (ref hs lv : List Node) (start len : Nat)
 /-! ### what is known at each wait point -/
 
 def PcOK (c : Cache Node) (T : Nat) (ref : List Node) (len idx t0 : Nat) : PC Node → Prop
+  | .hdr _ => True
   | .ext t cl start rd =>
     t ≤ T ∧ start = c.leafStart cl ∧ cl < len ∧
       (t = T → ∀ hs, rd = .got hs → Slice ref start (len - start) hs)
@@ -146,11 +147,11 @@ def PcOK (c : Cache Node) (T : Nat) (ref : List Node) (len idx t0 : Nat) : PC No
 /-- everything the proof knows about one request -/
 structure ReqOK (c : Cache Node) (T : Nat) (src ref : List Node) (r : Req Node) : Prop where
   t0 : r.t0 ≤ T
-  idx : r.active = true → r.index < r.length
+  idx : r.proving = true → r.index < r.length
   pc : PcOK H c T ref r.length r.index r.t0 r.pc
   safe : r.Safe H
   head : r.active = true → r.seen.head? = some src
-  chain : r.active = true → (r.length ≤ src.length ∨ ref ∈ r.seen)
+  chain : r.proving = true → (r.length ≤ src.length ∨ ref ∈ r.seen)
   nobo : r.bo = false → ∀ S ∈ r.seen, ∀ h, r.seen.head? = some h → S <+: h
 
 /-- the cache only grew (same `depth_higher`): nothing known is lost -/
@@ -171,6 +172,7 @@ theorem PcOK.mono {c c' : Cache Node} {T : Nat} {ref : List Node} {len idx t0 : 
     obtain ⟨h1, h2⟩ := h ht
     exact ⟨by omega, h2⟩
   | done r => trivial
+  | hdr rd => trivial
 
 theorem ReqOK.mono {c c' : Cache Node} {T : Nat} {src ref : List Node} {r : Req Node}
     (hd : c'.depthHigher = c.depthHigher) (hl : c.length ≤ c'.length)
@@ -197,6 +199,7 @@ theorem PcOK.grow {c : Cache Node} {T : Nat} {ref ref' : List Node} {len idx t0 
     have := leafStart_le c len
     rw [h4, take_of_prefix hp (by omega)]
   | done r => trivial
+  | hdr rd => trivial
 
 /-- a truncation happened: every guard is false from now on -/
 theorem PcOK.bump {c c' : Cache Node} {T : Nat} {ref ref' : List Node} {len idx t0 : Nat} {pc : PC Node}
@@ -213,14 +216,20 @@ theorem PcOK.bump {c c' : Cache Node} {T : Nat} {ref ref' : List Node} {len idx 
     simp only [PcOK]
     intro ht; omega
   | done r => trivial
+  | hdr rd => trivial
 
 /-! ### a worker thread performs the read of a request -/
 
 theorem reqOK_perform {c : Cache Node} {T : Nat} {src ref : List Node} {r : Req Node}
     (hp : src <+: ref) (h : ReqOK H c T src ref r) : ReqOK H c T src ref (performReq c src r) := by
-  obtain ⟨len, idx, t0, pc, seen, bo⟩ := r
+  obtain ⟨len, idx, t0, pc, seen, bo, kind, first, count, hdrs⟩ := r
   obtain ⟨h1, h2, h3, h4, h5, h6, h7⟩ := h
   cases pc with
+  | hdr rd =>
+    cases rd with
+    | issued => exact ⟨h1, (fun ha => by cases ha), trivial, trivial, fun _ => h5 rfl, (fun ha => by cases ha), h7⟩
+    | got hs => exact ⟨h1, h2, h3, h4, h5, h6, h7⟩
+    | short => exact ⟨h1, h2, h3, h4, h5, h6, h7⟩
   | ext t cl start rd =>
     cases rd with
     | issued =>
@@ -264,7 +273,7 @@ theorem reqOK_enterExtend {c : Cache Node} {T : Nat} {src ref : List Node} {r : 
     (h6 : r.length ≤ src.length ∨ ref ∈ r.seen)
     (h7 : r.bo = false → ∀ S ∈ r.seen, ∀ h, r.seen.head? = some h → S <+: h) :
     ReqOK H c T src ref (enterExtend c T r) := by
-  obtain ⟨len, idx, t0, pc, seen, bo⟩ := r
+  obtain ⟨len, idx, t0, pc, seen, bo, kind, first, count, hdrs⟩ := r
   unfold enterExtend
   split
   · next hle =>
@@ -276,22 +285,26 @@ theorem reqOK_enterExtend {c : Cache Node} {T : Nat} {src ref : List Node} {r : 
     simp only [PcOK]
     exact ⟨Nat.le_refl _, trivial, by simp only at hle; omega, fun _ hs hrd => by cases hrd⟩
 
+theorem proving_active {r : Req Node} (h : r.proving = true) : r.active = true := by
+  obtain ⟨len, idx, t0, pc, seen, bo, kind, first, count, hdrs⟩ := r
+  cases pc <;> first | rfl | cases h
+
 theorem reqOK_beginIter {c : Cache Node} {T : Nat} {src ref : List Node} {r : Req Node}
-    (hact : r.active = true) (h : ReqOK H c T src ref r) :
+    (hact : r.proving = true) (h : ReqOK H c T src ref r) :
     ReqOK H c T src ref (beginIter c T r) :=
-  reqOK_enterExtend H (r := { r with t0 := T }) (Nat.le_refl _) (h.idx hact) (h.head hact)
+  reqOK_enterExtend H (r := { r with t0 := T }) (Nat.le_refl _) (h.idx hact) (h.head (proving_active hact))
     (h.chain hact) h.nobo
 
 /-- a request ends with an exception -/
 theorem reqOK_error {c : Cache Node} {T : Nat} {src ref : List Node} {r : Req Node} (e : Err)
     (h : ReqOK H c T src ref r) : ReqOK H c T src ref { r with pc := .done (.error e) } :=
-  ⟨h.t0, fun ha => by simp [Req.active] at ha, trivial, trivial, fun ha => by simp [Req.active] at ha,
-    fun ha => by simp [Req.active] at ha, h.nobo⟩
+  ⟨h.t0, fun ha => by simp [Req.proving] at ha, trivial, trivial, fun ha => by simp [Req.active] at ha,
+    fun ha => by simp [Req.proving] at ha, h.nobo⟩
 
 /-- the end of an iteration whose result — if no truncation happened during the iteration — is
     the from-scratch result on the reference chain -/
 theorem reqOK_finish {c : Cache Node} {T : Nat} {src ref : List Node} {r : Req Node}
-    (hp : src <+: ref) (hact : r.active = true) (h : ReqOK H c T src ref r)
+    (hp : src <+: ref) (hact : r.proving = true) (h : ReqOK H c T src ref r)
     (res : Except PyExc (List (Elt Node) × Node))
     (hres : r.t0 = T → r.length ≤ ref.length ∧
       res = branchAndRoot H (ref.take r.length) (.int r.index) none false) :
@@ -305,12 +318,12 @@ theorem reqOK_finish {c : Cache Node} {T : Nat} {src ref : List Node} {r : Req N
     · have hb : (T != r.t0) = false := by simp [ht]
       simp only [hb, Bool.false_eq_true, if_false]
       obtain ⟨hlen, hx⟩ := hres ht.symm
-      refine ⟨h.t0, fun ha => by simp [Req.active] at ha, trivial, ?_,
-        fun ha => by simp [Req.active] at ha, fun ha => by simp [Req.active] at ha, h.nobo⟩
+      refine ⟨h.t0, fun ha => by simp [Req.proving] at ha, trivial, ?_,
+        fun ha => by simp [Req.active] at ha, fun ha => by simp [Req.proving] at ha, h.nobo⟩
       show ∃ S ∈ r.seen, r.length ≤ S.length ∧
         branchAndRoot H (S.take r.length) (.int r.index) none false = .ok (x.1, x.2)
       rcases h.chain hact with hc | hc
-      · refine ⟨src, List.mem_of_mem_head? (h.head hact), hc, ?_⟩
+      · refine ⟨src, List.mem_of_mem_head? (h.head (proving_active hact)), hc, ?_⟩
         rw [← take_of_prefix hp hc, ← hx]
       · exact ⟨ref, hc, hlen, hx.symm⟩
     · have hb : (T != r.t0) = true := by simp [ht]
@@ -326,8 +339,9 @@ theorem deliver_ok [DecidableEq Node] {c : Cache Node} {T : Nat} {src ref : List
     (deliverReq H Cfg.fixed c T r).1.depthHigher = c.depthHigher ∧
     c.length ≤ (deliverReq H Cfg.fixed c T r).1.length ∧
     ReqOK H (deliverReq H Cfg.fixed c T r).1 T src ref (deliverReq H Cfg.fixed c T r).2 := by
-  obtain ⟨len, idx, t0, pc, seen, bo⟩ := r
+  obtain ⟨len, idx, t0, pc, seen, bo, kind, first, count, hdrs⟩ := r
   cases pc with
+  | hdr rd => exact ⟨hinv, rfl, Nat.le_refl _, h⟩
   | ext t cl start rd =>
     cases rd with
     | issued => exact ⟨hinv, rfl, Nat.le_refl _, h⟩
@@ -336,7 +350,8 @@ theorem deliver_ok [DecidableEq Node] {c : Cache Node} {T : Nat} {src ref : List
       have hpc := h.pc
       simp only [PcOK] at hpc
       obtain ⟨a1, a2, a3, a4⟩ := hpc
-      have hact : (Req.mk len idx t0 (.ext t cl start (.got hs)) seen bo).active = true := rfl
+      have hact : (Req.mk len idx t0 (.ext t cl start (.got hs)) seen bo kind first count hdrs).proving = true := rfl
+      have hact' := proving_active hact
       simp only [deliverReq, fixed_extFix, if_true]
       by_cases hg : t = T ∧ cl = c.length
       · rw [if_pos hg]
@@ -349,10 +364,10 @@ theorem deliver_ok [DecidableEq Node] {c : Cache Node} {T : Nat} {src ref : List
         rw [write_eq H c ref hs _ start len a3 a2 b2 (level_eq' H hs _)]
         obtain ⟨_, e2, e3, e4⟩ := extendTo_inv H c ref len hinv hlen
         refine ⟨e2, e4, by rw [e3]; omega, ?_⟩
-        exact reqOK_enterExtend H h.t0 (h.idx hact) (h.head hact) (h.chain hact) h.nobo
+        exact reqOK_enterExtend H h.t0 (h.idx hact) (h.head hact') (h.chain hact) h.nobo
       · rw [if_neg hg]
         exact ⟨hinv, rfl, Nat.le_refl _,
-          reqOK_enterExtend H h.t0 (h.idx hact) (h.head hact) (h.chain hact) h.nobo⟩
+          reqOK_enterExtend H h.t0 (h.idx hact) (h.head hact') (h.chain hact) h.nobo⟩
   | leaf rd =>
     cases rd with
     | issued => exact ⟨hinv, rfl, Nat.le_refl _, h⟩
@@ -360,7 +375,8 @@ theorem deliver_ok [DecidableEq Node] {c : Cache Node} {T : Nat} {src ref : List
     | got hs =>
       have hpc := h.pc
       simp only [PcOK] at hpc
-      have hact : (Req.mk len idx t0 (.leaf (.got hs)) seen bo).active = true := rfl
+      have hact : (Req.mk len idx t0 (.leaf (.got hs)) seen bo kind first count hdrs).proving = true := rfl
+      have hact' := proving_active hact
       simp only [deliverReq]
       by_cases hsmall : len < c.segLen
       · rw [if_pos hsmall]
@@ -382,7 +398,7 @@ theorem deliver_ok [DecidableEq Node] {c : Cache Node} {T : Nat} {src ref : List
           exact fromLevel_eq H c ref hs len idx hsmall (h.idx hact) hlen (a2 hs rfl)
         · rw [if_neg heq]
           refine ⟨hinv, rfl, Nat.le_refl _, h.t0, fun _ => h.idx hact, ?_, trivial,
-            fun _ => h.head hact, fun _ => h.chain hact, h.nobo⟩
+            fun _ => h.head hact', fun _ => h.chain hact, h.nobo⟩
           simp only [PcOK]
           intro ht
           obtain ⟨a1, a2⟩ := hpc ht
@@ -394,7 +410,7 @@ theorem deliver_ok [DecidableEq Node] {c : Cache Node} {T : Nat} {src ref : List
     | got hs =>
       have hpc := h.pc
       simp only [PcOK] at hpc
-      have hact : (Req.mk len idx t0 (.lvl pre leaf (.got hs)) seen bo).active = true := rfl
+      have hact : (Req.mk len idx t0 (.lvl pre leaf (.got hs)) seen bo kind first count hdrs).proving = true := rfl
       simp only [deliverReq]
       rw [level_eq']
       simp only
@@ -426,18 +442,21 @@ theorem reqOK_inactive {c c' : Cache Node} {T T' : Nat} {src src' ref ref' : Lis
     (hin : r.active = false) (hT : T ≤ T') (h : ReqOK H c T src ref r) :
     ReqOK H c' T' src' ref' r := by
   have hno : ∀ {P : Prop}, r.active = true → P := fun ha => by rw [hin] at ha; cases ha
-  refine ⟨by have := h.t0; omega, hno, ?_, h.safe, hno, hno, h.nobo⟩
-  obtain ⟨len, idx, t0, pc, seen, bo⟩ := r
+  have hno' : ∀ {P : Prop}, r.proving = true → P := fun ha => hno (proving_active ha)
+  refine ⟨by have := h.t0; omega, hno', ?_, h.safe, hno, hno', h.nobo⟩
+  obtain ⟨len, idx, t0, pc, seen, bo, kind, first, count, hdrs⟩ := r
   cases pc with
   | done res => trivial
+  | hdr rd => cases hin
   | ext t cl start rd => cases hin
   | leaf rd => cases hin
   | lvl pre leaf rd => cases hin
 
 theorem safe_of_active {r : Req Node} (h : r.active = true) : r.Safe H := by
-  obtain ⟨len, idx, t0, pc, seen, bo⟩ := r
+  obtain ⟨len, idx, t0, pc, seen, bo, kind, first, count, hdrs⟩ := r
   cases pc with
   | done res => cases h
+  | hdr rd => trivial
   | ext t cl start rd => trivial
   | leaf rd => trivial
   | lvl pre leaf rd => trivial
@@ -491,28 +510,362 @@ theorem reqOK_trunc {c c' : Cache Node} {T : Nat} {src ref : List Node} {r : Req
     rw [markBo_inactive _ hin]
     exact reqOK_inactive H hin (Nat.le_succ _) h
 
-/-- a new request: refused, or at its first wait point -/
-theorem reqOK_new (c : Cache Node) (T : Nat) (src ref : List Node) (b : Bool) (cp height : Nat) :
-    ReqOK H c T src ref (newReq c T src b cp height) := by
-  unfold newReq
+/-- a new request: waiting for the handler's read of the header(s) -/
+theorem reqOK_new (c : Cache Node) (T : Nat) (src ref : List Node) (b : Bool) (kind : Handler)
+    (first count cp : Nat) : ReqOK H c T src ref (newReq T src b kind first count cp) := by
+  refine ⟨Nat.le_refl _, (fun ha => by cases ha), trivial, trivial, fun _ => rfl, (fun ha => by cases ha), ?_⟩
+  intro _ S hS hd hhd
+  simp only [newReq, List.mem_singleton] at hS
+  simp only [newReq, List.head?_cons, Option.some.injEq] at hhd
+  subst hS hhd
+  exact List.prefix_refl _
+
+/-! ### the handler around the proof: header read, range check, consistency check -/
+
+/-- a request ends without a proof (refused, plain reply) -/
+theorem reqOK_end {c : Cache Node} {T : Nat} {src ref : List Node} {r : Req Node} (res : Res Node)
+    (hres : ∀ br root, res ≠ .answer br root)
+    (h : ReqOK H c T src ref r) : ReqOK H c T src ref { r with pc := .done res } := by
+  refine ⟨h.t0, fun ha => by simp [Req.proving] at ha, trivial, ?_, fun ha => by simp [Req.active] at ha,
+    fun ha => by simp [Req.proving] at ha, h.nobo⟩
+  cases res with
+  | answer br root => exact absurd rfl (hres br root)
+  | error e => trivial
+  | refused => trivial
+  | plain => trivial
+
+/-- `_merkle_proof` from its range check on: refused, or at the first wait point of the proof -/
+theorem reqOK_enterProof {c : Cache Node} {T : Nat} {src ref : List Node} {r : Req Node}
+    (hact : r.active = true) (h : ReqOK H c T src ref r) :
+    ReqOK H c T src ref (enterProof c T src.length r) := by
+  unfold enterProof
   split
   · next hr =>
-    exact reqOK_enterExtend H (r := ⟨cp + 1, height, T, .done .refused, [src], b⟩)
-      (Nat.le_refl _) (by show height < cp + 1; omega) rfl
-      (Or.inl (by show cp + 1 ≤ src.length; omega))
-      (by
-        intro _ S hS hd hhd
-        simp only [List.mem_singleton] at hS
-        simp only [List.head?_cons, Option.some.injEq] at hhd
-        subst hS hhd
-        exact List.prefix_refl _)
-  · have hno : ∀ {P : Prop}, (⟨cp + 1, height, T, .done .refused, [src], b⟩ : Req Node).active = true → P :=
-      fun ha => by cases ha
-    refine ⟨Nat.le_refl _, hno, trivial, trivial, hno, hno, ?_⟩
-    intro _ S hS hd hhd
-    simp only [List.mem_singleton] at hS
-    simp only [List.head?_cons, Option.some.injEq] at hhd
-    subst hS hhd
-    exact List.prefix_refl _
+    exact reqOK_enterExtend H (r := { r with t0 := T }) (Nat.le_refl _) hr.1 (h.head hact)
+      (Or.inl hr.2) h.nobo
+  · exact reqOK_end H .refused (fun _ _ hc => by cases hc) h
+
+/-- the handler resumes with its header(s) -/
+theorem reqOK_afterHdr {c : Cache Node} {T : Nat} {src ref : List Node} {r : Req Node} (hs : List Node)
+    (hact : r.active = true) (h : ReqOK H c T src ref r) :
+    ReqOK H c T src ref (afterHdr c T src.length r hs) := by
+  have hset : ∀ i, ReqOK H c T src ref { r with hdrs := hs, index := i, pc := .hdr .issued } :=
+    fun i => ⟨h.t0, (fun ha => by cases ha), trivial, trivial, fun _ => h.head hact,
+      (fun ha => by cases ha), h.nobo⟩
+  unfold afterHdr
+  split
+  · split
+    · exact reqOK_end H .refused (fun _ _ hc => by cases hc) h
+    · split
+      · exact reqOK_end H .plain (fun _ _ hc => by cases hc) (hset r.first)
+      · exact reqOK_enterProof H (r := { r with hdrs := hs, index := r.first, pc := .hdr .issued }) rfl (hset _)
+  · split
+    · exact reqOK_end H .plain (fun _ _ hc => by cases hc) (hset (r.first + hs.length - 1))
+    · exact reqOK_enterProof H (r := { r with hdrs := hs, index := r.first + hs.length - 1, pc := .hdr .issued })
+        rfl (hset _)
+
+/-! ### what the proof part leaves alone -/
+
+/-- the ghost fields and the parameters of a request: everything but `t0` and `pc` -/
+def Req.Same (r' r : Req Node) : Prop :=
+  r'.seen = r.seen ∧ r'.bo = r.bo ∧ r'.length = r.length ∧ r'.index = r.index ∧
+    r'.kind = r.kind ∧ r'.first = r.first ∧ r'.count = r.count ∧ r'.hdrs = r.hdrs
+
+theorem Req.Same.rfl' (r : Req Node) : Req.Same r r := ⟨rfl, rfl, rfl, rfl, rfl, rfl, rfl, rfl⟩
+
+/-- a program counter inside `_merkle_proof` past the range check, or its end with an answer or an
+    exception -/
+def PC.proofish : PC Node → Prop
+  | .hdr _ => False
+  | .done .plain => False
+  | .done .refused => False
+  | _ => True
+
+theorem enterExtend_ghost (c : Cache Node) (T : Nat) (r : Req Node) :
+    (enterExtend c T r).Same r ∧ (enterExtend c T r).pc.proofish ∧
+      (∀ res, (enterExtend c T r).pc ≠ .done res) := by
+  unfold enterExtend
+  split
+  · exact ⟨Req.Same.rfl' _, trivial, (fun res hc => by cases hc)⟩
+  · exact ⟨Req.Same.rfl' _, trivial, (fun res hc => by cases hc)⟩
+
+theorem finish_ghost (cfg : Cfg) (c : Cache Node) (T : Nat) (r : Req Node)
+    (res : Except PyExc (List (Elt Node) × Node)) :
+    (finish cfg c T r res).Same r ∧ (finish cfg c T r res).pc.proofish := by
+  unfold finish
+  split
+  · exact ⟨Req.Same.rfl' _, trivial⟩
+  · split
+    · exact ⟨(enterExtend_ghost c T _).1, (enterExtend_ghost c T _).2.1⟩
+    · exact ⟨Req.Same.rfl' _, trivial⟩
+
+theorem deliverReq_ghost [DecidableEq Node] (cfg : Cfg) (c : Cache Node) (T : Nat) (r : Req Node) :
+    (deliverReq H cfg c T r).2.Same r ∧
+      (r.pc.proofish → (deliverReq H cfg c T r).2.pc.proofish) := by
+  unfold deliverReq
+  repeat' split
+  all_goals first
+    | exact ⟨Req.Same.rfl' _, fun _ => trivial⟩
+    | exact ⟨Req.Same.rfl' _, fun hp => hp⟩
+    | exact ⟨(enterExtend_ghost c T r).1, fun _ => (enterExtend_ghost c T r).2.1⟩
+    | exact ⟨(enterExtend_ghost _ T r).1, fun _ => (enterExtend_ghost _ T r).2.1⟩
+    | exact ⟨(finish_ghost cfg c T r _).1, fun _ => (finish_ghost cfg c T r _).2⟩
+
+theorem performReq_ghost (c : Cache Node) (src : List Node) (r : Req Node) :
+    (performReq c src r).Same r := by
+  unfold performReq
+  repeat' split
+  all_goals exact Req.Same.rfl' _
+
+theorem enterProof_ghost (c : Cache Node) (T vis : Nat) (r : Req Node) :
+    (enterProof c T vis r).Same r ∧ (∀ rd, (enterProof c T vis r).pc ≠ .hdr rd) ∧
+      (∀ br root, (enterProof c T vis r).pc ≠ .done (.answer br root)) ∧
+      (enterProof c T vis r).pc ≠ .done .plain := by
+  unfold enterProof beginIter enterExtend
+  repeat' split
+  all_goals exact ⟨Req.Same.rfl' _, (fun rd hc => by cases hc), (fun br root hc => by cases hc), (fun hc => by cases hc)⟩
+
+theorem afterHdr_seen (c : Cache Node) (T vis : Nat) (r : Req Node) (hs : List Node) :
+    (afterHdr c T vis r hs).seen = r.seen ∧ (afterHdr c T vis r hs).bo = r.bo := by
+  unfold afterHdr
+  repeat' split
+  all_goals first
+    | exact ⟨rfl, rfl⟩
+    | exact ⟨(enterProof_ghost c T vis _).1.1, (enterProof_ghost c T vis _).1.2.1⟩
+
+theorem afterProof_seen [DecidableEq Node] (cfg : Cfg) (r : Req Node) :
+    (afterProof H cfg r).seen = r.seen ∧ (afterProof H cfg r).bo = r.bo := by
+  unfold afterProof
+  repeat' split
+  all_goals exact ⟨rfl, rfl⟩
+
+/-- every variant of the code: a delivery does not touch the ghost fields -/
+theorem deliverAll_seen [DecidableEq Node] (cfg : Cfg) (c : Cache Node) (T vis : Nat) (r : Req Node) :
+    (deliverAll H cfg c T vis r).2.seen = r.seen ∧ (deliverAll H cfg c T vis r).2.bo = r.bo := by
+  unfold deliverAll
+  split
+  · exact ⟨rfl, rfl⟩
+  · exact afterHdr_seen c T vis r _
+  · exact ⟨rfl, rfl⟩
+  · exact ⟨(afterProof_seen H cfg _).1.trans (deliverReq_ghost H cfg c T r).1.1,
+      (afterProof_seen H cfg _).2.trans (deliverReq_ghost H cfg c T r).1.2.1⟩
+
+/-! ### the consistency check of the reply -/
+
+/-- what `afterProof` of the current code can do -/
+theorem afterProof_cases [DecidableEq Node] (r : Req Node) :
+    (afterProof H Cfg.fixed r = r ∧ r.Folds H) ∨
+    afterProof H Cfg.fixed r = { r with pc := .hdr .issued } ∨
+    ∃ e, afterProof H Cfg.fixed r = { r with pc := .done (.error e) } := by
+  unfold afterProof
+  split
+  · next br root hpc =>
+    simp only [show Cfg.fixed.hdrCheck = true from rfl, if_true]
+    split
+    · exact Or.inr (Or.inl rfl)
+    · next h hh =>
+      split
+      · next e he => exact Or.inr (Or.inr ⟨_, rfl⟩)
+      · next x hx =>
+        split
+        · next hxr =>
+          refine Or.inl ⟨rfl, ?_⟩
+          unfold Req.Folds
+          rw [hpc]
+          simp only [hh]
+          rw [hx, hxr]
+        · exact Or.inr (Or.inl rfl)
+  · next hpc =>
+    refine Or.inl ⟨rfl, ?_⟩
+    unfold Req.Folds
+    split
+    · next br root hpc' => exact absurd hpc' (hpc br root)
+    · trivial
+
+theorem reqOK_afterProof [DecidableEq Node] {c : Cache Node} {T : Nat} {src ref : List Node} {r : Req Node}
+    (hhead : r.seen.head? = some src) (h : ReqOK H c T src ref r) :
+    ReqOK H c T src ref (afterProof H Cfg.fixed r) := by
+  rcases afterProof_cases H r with ⟨he, _⟩ | he | ⟨e, he⟩
+  · rw [he]; exact h
+  · rw [he]
+    exact ⟨h.t0, (fun ha => by cases ha), trivial, trivial, fun _ => hhead, (fun ha => by cases ha), h.nobo⟩
+  · rw [he]; exact reqOK_error H e h
+
+theorem proofish_of {r : Req Node} (h1 : ∀ res, r.pc ≠ .done res) (h2 : ∀ rd, r.pc ≠ .hdr rd) :
+    r.proving = true ∧ r.pc.proofish := by
+  obtain ⟨len, idx, t0, pc, seen, bo, kind, first, count, hdrs⟩ := r
+  cases pc with
+  | done res => exact absurd rfl (h1 res)
+  | hdr rd => exact absurd rfl (h2 rd)
+  | ext t cl start rd => exact ⟨rfl, trivial⟩
+  | leaf rd => exact ⟨rfl, trivial⟩
+  | lvl pre leaf rd => exact ⟨rfl, trivial⟩
+
+/-- **delivery of a read result to the whole handler** (current code) -/
+theorem deliverAll_ok [DecidableEq Node] {c : Cache Node} {T : Nat} {src ref : List Node} {r : Req Node}
+    (hinv : CacheInv H c ref) (hp : src <+: ref) (h : ReqOK H c T src ref r) :
+    CacheInv H (deliverAll H Cfg.fixed c T src.length r).1 ref ∧
+    (deliverAll H Cfg.fixed c T src.length r).1.depthHigher = c.depthHigher ∧
+    c.length ≤ (deliverAll H Cfg.fixed c T src.length r).1.length ∧
+    ReqOK H (deliverAll H Cfg.fixed c T src.length r).1 T src ref (deliverAll H Cfg.fixed c T src.length r).2 := by
+  have hproof : r.proving = true →
+      CacheInv H (deliverReq H Cfg.fixed c T r).1 ref ∧
+      (deliverReq H Cfg.fixed c T r).1.depthHigher = c.depthHigher ∧
+      c.length ≤ (deliverReq H Cfg.fixed c T r).1.length ∧
+      ReqOK H (deliverReq H Cfg.fixed c T r).1 T src ref
+        (afterProof H Cfg.fixed (deliverReq H Cfg.fixed c T r).2) := by
+    intro hact
+    obtain ⟨d1, d2, d3, d4⟩ := deliver_ok H hinv hp h
+    refine ⟨d1, d2, d3, reqOK_afterProof H ?_ d4⟩
+    rw [(deliverReq_ghost H Cfg.fixed c T r).1.1]
+    exact h.head (proving_active hact)
+  unfold deliverAll
+  split
+  · exact ⟨hinv, rfl, Nat.le_refl _, h⟩
+  · next hs hpc =>
+    exact ⟨hinv, rfl, Nat.le_refl _, reqOK_afterHdr H hs (by simp [Req.active, hpc]) h⟩
+  · exact ⟨hinv, rfl, Nat.le_refl _, h⟩
+  · next h1 h2 h3 =>
+    apply hproof
+    refine (proofish_of h1 (fun rd => ?_)).1
+    cases rd with
+    | got hs => exact h2 hs
+    | issued => exact h3 _
+    | short => exact h3 _
+
+/-! ### the header part of the reply -/
+
+/-- what is known about the headers of a request, whatever the cache and the DB do: a finished
+    reply with a proof passed the consistency check; the headers in hand came from ONE read of a
+    chain that was visible during the request; `index` is the height of the last of them -/
+structure HdrOK (r : Req Node) : Prop where
+  folds : r.Folds H
+  hsrc : r.pc.proofish → ∃ A ∈ r.seen, r.hdrs = srcSlice A r.first r.count
+  hplain : r.pc = .done .plain → ∃ A ∈ r.seen, r.hdrs = srcSlice A r.first r.count
+  hrd : ∀ hs, r.pc = .hdr (.got hs) → ∃ A ∈ r.seen, hs = srcSlice A r.first r.count
+  hidx : r.hdrs = [] ∨ r.index = r.first + r.hdrs.length - 1
+  one : r.kind = .header → r.count = 1
+
+theorem folds_of_not_answer {r : Req Node} (h : ∀ br root, r.pc ≠ .done (.answer br root)) : r.Folds H := by
+  unfold Req.Folds
+  split
+  · next br root hpc => exact absurd hpc (h br root)
+  · trivial
+
+theorem hdrOK_header (T : Nat) (src : List Node) (b : Bool) (first cp : Nat) :
+    HdrOK H (newReq T src b .header first 1 cp) :=
+  ⟨trivial, (fun hc => by cases hc), (fun hc => by cases hc), (fun hs hc => by cases hc), Or.inl rfl, fun _ => rfl⟩
+
+theorem hdrOK_headers (T : Nat) (src : List Node) (b : Bool) (first count cp : Nat) :
+    HdrOK H (newReq T src b .headers first count cp) :=
+  ⟨trivial, (fun hc => by cases hc), (fun hc => by cases hc), (fun hs hc => by cases hc), Or.inl rfl,
+    (fun hc => by cases hc)⟩
+
+theorem hdrOK_perform {c : Cache Node} {src : List Node} {r : Req Node}
+    (hhead : r.active = true → r.seen.head? = some src) (h : HdrOK H r) :
+    HdrOK H (performReq c src r) := by
+  obtain ⟨len, idx, t0, pc, seen, bo, kind, first, count, hdrs⟩ := r
+  cases pc with
+  | hdr rd =>
+    cases rd with
+    | issued =>
+      refine ⟨trivial, (fun hc => by cases hc), (fun hc => by cases hc), fun hs hc => ?_, h.hidx, h.one⟩
+      have hc' : PC.hdr (.got (srcSlice src first count)) = PC.hdr (.got hs) := hc
+      injection hc' with hc'
+      injection hc' with hc'
+      exact ⟨src, List.mem_of_mem_head? (hhead rfl), hc'.symm⟩
+    | got hs => exact h
+    | short => exact h
+  | done res => exact h
+  | ext t cl start rd =>
+    cases rd with
+    | issued => exact ⟨trivial, fun _ => h.hsrc trivial, (fun hc => by cases hc), (fun hs hc => by cases hc), h.hidx, h.one⟩
+    | got hs => exact h
+    | short => exact h
+  | leaf rd =>
+    cases rd with
+    | issued => exact ⟨trivial, fun _ => h.hsrc trivial, (fun hc => by cases hc), (fun hs hc => by cases hc), h.hidx, h.one⟩
+    | got hs => exact h
+    | short => exact h
+  | lvl pre leaf rd =>
+    cases rd with
+    | issued => exact ⟨trivial, fun _ => h.hsrc trivial, (fun hc => by cases hc), (fun hs hc => by cases hc), h.hidx, h.one⟩
+    | got hs => exact h
+    | short => exact h
+
+theorem hdrOK_see (S : List Node) {r : Req Node} (h : HdrOK H r) : HdrOK H (r.see S) := by
+  unfold Req.see
+  split
+  · have up : (∃ A ∈ r.seen, r.hdrs = srcSlice A r.first r.count) →
+        ∃ A ∈ S :: r.seen, r.hdrs = srcSlice A r.first r.count :=
+      fun ⟨A, hA, h1⟩ => ⟨A, List.mem_cons_of_mem _ hA, h1⟩
+    refine ⟨h.folds, fun hp => up (h.hsrc hp), fun hp => up (h.hplain hp), fun hs hc => ?_, h.hidx, h.one⟩
+    obtain ⟨A, hA, h1⟩ := h.hrd hs hc
+    exact ⟨A, List.mem_cons_of_mem _ hA, h1⟩
+  · exact h
+
+theorem hdrOK_markBo {r : Req Node} (h : HdrOK H r) : HdrOK H r.markBo := by
+  unfold Req.markBo
+  split
+  · exact ⟨h.folds, h.hsrc, h.hplain, h.hrd, h.hidx, h.one⟩
+  · exact h
+
+/-- after the range check -/
+theorem hdrOK_enterProof {c : Cache Node} {T vis : Nat} {r : Req Node}
+    (hsrc : ∃ A ∈ r.seen, r.hdrs = srcSlice A r.first r.count)
+    (hidx : r.hdrs = [] ∨ r.index = r.first + r.hdrs.length - 1) (hone : r.kind = .header → r.count = 1) :
+    HdrOK H (enterProof c T vis r) := by
+  obtain ⟨⟨e1, _, _, e4, e5, e6, e7, e8⟩, hh, ha, hp⟩ := enterProof_ghost c T vis r
+  exact ⟨folds_of_not_answer H ha, fun _ => by rw [e1, e6, e7, e8]; exact hsrc, fun hc => absurd hc hp,
+    fun x hc => absurd hc (hh _), by rw [e4, e6, e8]; exact hidx, by rw [e5, e7]; exact hone⟩
+
+theorem hdrOK_afterHdr {c : Cache Node} {T vis : Nat} {r : Req Node} (hs : List Node)
+    (hpc : r.pc = .hdr (.got hs)) (h : HdrOK H r) : HdrOK H (afterHdr c T vis r hs) := by
+  have hnew := h.hrd hs hpc
+  unfold afterHdr
+  split
+  · split
+    · exact ⟨trivial, (fun hc => by cases hc), (fun hc => by cases hc), (fun x hc => by cases hc), h.hidx, h.one⟩
+    · next hlen =>
+      have hidx : hs = [] ∨ r.first = r.first + hs.length - 1 := Or.inr (by omega)
+      split
+      · exact ⟨trivial, (fun hc => by cases hc), fun _ => hnew, (fun x hc => by cases hc), hidx, h.one⟩
+      · exact hdrOK_enterProof H (r := { r with hdrs := hs, index := r.first }) hnew hidx h.one
+  · split
+    · exact ⟨trivial, (fun hc => by cases hc), fun _ => hnew, (fun x hc => by cases hc), Or.inr rfl, h.one⟩
+    · exact hdrOK_enterProof H (r := { r with hdrs := hs, index := r.first + hs.length - 1 }) hnew (Or.inr rfl) h.one
+
+theorem hdrOK_afterProof [DecidableEq Node] {r : Req Node}
+    (hsrc : ∃ A ∈ r.seen, r.hdrs = srcSlice A r.first r.count) (hp : r.pc.proofish)
+    (hidx : r.hdrs = [] ∨ r.index = r.first + r.hdrs.length - 1) (hone : r.kind = .header → r.count = 1) :
+    HdrOK H (afterProof H Cfg.fixed r) := by
+  rcases afterProof_cases H r with ⟨he, hf⟩ | he | ⟨e, he⟩
+  · rw [he]
+    exact ⟨hf, fun _ => hsrc, fun hc => by rw [hc] at hp; exact hp.elim,
+      fun x hc => by rw [hc] at hp; exact hp.elim, hidx, hone⟩
+  · rw [he]; exact ⟨trivial, (fun hc => by cases hc), (fun hc => by cases hc), (fun x hc => by cases hc), hidx, hone⟩
+  · rw [he]; exact ⟨trivial, fun _ => hsrc, (fun hc => by cases hc), (fun x hc => by cases hc), hidx, hone⟩
+
+/-- **delivery of a read result to the whole handler** (current code), the header part -/
+theorem hdrOK_deliverAll [DecidableEq Node] {c : Cache Node} {T vis : Nat} {r : Req Node} (h : HdrOK H r) :
+    HdrOK H (deliverAll H Cfg.fixed c T vis r).2 := by
+  unfold deliverAll
+  split
+  · exact h
+  · next hs hpc => exact hdrOK_afterHdr H hs hpc h
+  · exact h
+  · next h1 h2 h3 =>
+    have hp : r.pc.proofish := by
+      refine (proofish_of h1 (fun rd => ?_)).2
+      cases rd with
+      | got hs => exact h2 hs
+      | issued => exact h3 _
+      | short => exact h3 _
+    obtain ⟨⟨e1, _, _, e4, e5, e6, e7, e8⟩, hh⟩ := deliverReq_ghost H Cfg.fixed c T r
+    apply hdrOK_afterProof H
+    · rw [e1, e6, e7, e8]; exact h.hsrc hp
+    · exact hh hp
+    · rw [e4, e6, e8]; exact h.hidx
+    · rw [e5, e7]; exact h.one
 
 end EV.HeaderCache
